@@ -123,11 +123,28 @@ impl ParserState {
             if let Some(arr) = self.context.pop() {
                 if let Some(val_list) = self.context.last_mut() {
                     let mut map: BTreeMap<String, IppValue> = BTreeMap::new();
+                    // each member name is followed by one or more values (RFC 8010 section 3.1.6);
                     // move the member values out of the list instead of deep-copying them
-                    let mut items = arr.into_iter();
-                    while let (Some(k), Some(v)) = (items.next(), items.next()) {
-                        if let IppValue::MemberAttrName(k) = k {
-                            map.insert(k, v);
+                    let mut member: Option<(String, Vec<IppValue>)> = None;
+                    for item in arr {
+                        match item {
+                            IppValue::MemberAttrName(name) => {
+                                if let Some((name, values)) = member.replace((name, Vec::new())) {
+                                    if !values.is_empty() {
+                                        map.insert(name, list_or_value(values));
+                                    }
+                                }
+                            }
+                            value => {
+                                if let Some((_, ref mut values)) = member {
+                                    values.push(value);
+                                }
+                            }
+                        }
+                    }
+                    if let Some((name, values)) = member {
+                        if !values.is_empty() {
+                            map.insert(name, list_or_value(values));
                         }
                     }
                     val_list.push(IppValue::Collection(map));
